@@ -158,6 +158,7 @@ def run_check(pid, tier, seed, replay, t0, skip_proofs=False):
     log('[%s] %s' % (pid, msg))
     if not ok:
         broken.append('translator: ' + msg)
+    partial = [l for l in msg.splitlines() if l.startswith('translate: partial')]
     # 2. model driver
     drv_ok = vlib.build_driver()
     if not drv_ok:
@@ -170,6 +171,8 @@ def run_check(pid, tier, seed, replay, t0, skip_proofs=False):
         gate = vlib.grep_gate()
         for t, why in aud['failed']:
             broken.append('theorem %s: %s' % (t, why))
+        if aud['failed'] and partial:
+            broken.append(partial[0])
         for gline in gate:
             broken.append('forbidden construct: ' + gline)
         log('[%s] proofs: %d/%d discharged' % (pid, len(aud['discharged']), len(aud['obligations'])))
